@@ -12,6 +12,10 @@ variants = [
 assumptions = ["ghost value oracle: G[k] = the objective after the move with candidate k from the loop's (unchanging) state, F[k] = feasibility; valueOnSwap/valueOnInsert return it and restore the state, doSwap/doInsert establish it (their own bodies: unit c05_evaluate)",
                "the objective that the optimiser maintains equals Circuit::hpwl() only for orientation-preserving moves (C09 incremental consistency); orientation-changing moves are the known finding of C05",
                "runShiftsOnCells (lemon network simplex) and RowReordering are not under contract"]
+[replay]
+template = "replay/c02_detailed_history.cpp"
+search = true
+inputs = []
 @*/
 #include "lower.h"
 int verif_exc;
